@@ -6,6 +6,8 @@ driver for the framer clock model (engine `floclock`, C11)
   `runf <P> <start> <nticks> <nframes> frame*`   τ = Float  (the instance is entered at tick <start>), every number is the 16 hex digit bit pattern
   `runi <P> <start> <nticks> <nframes> frame*`   τ = Int   (exact time in units of a quantum), decimal integers
     frame := `<over idx|-> <nverbs> verb*`      (`frame Fi in Fover`)
+  after the frames: `H <nframes> frame* <ndone> <frame idx>*`   the helper framer of `aux helper if …` and its
+    `done me` frames (`H 0 0` when there is none); in a main frame `S <nneeds> need*` is the suspender line
     verb  := `T <num>` (timeout) | `R <num>` (repeat) | `G <far> <nneeds> need*`   far := `next`|`me`|`<idx>`
     need  := `E <cmp> <num>` (elapsed) | `C <cmp> <nat>` (recurred)    cmp := ge gt le lt eq ne
 reply: `ERR build`, or per tick `<active idx><*|.>:<elapsed>:<recurred>:<store stamp>`  (`*` = outline changed in this tick)
@@ -88,6 +90,27 @@ def frameP {τ : Type} (num : P τ) : P (FrameSrc τ) := fun ts => do
   let (vs, r) ← many (verbP num) r
   return (⟨over, vs⟩, r)
 
+def verbSP {τ : Type} (num : P τ) : P (VerbS τ) := fun ts =>
+  match ts with
+  | "S" :: r => do
+    let (ns, r) ← many (needP num) r
+    return (.susp ns, r)
+  | _ => do
+    let (v, r) ← verbP num ts
+    return (.plain v, r)
+
+def frameSP {τ : Type} (num : P τ) : P (FrameSrcS τ) := fun ts => do
+  let (o, r) ← tok ts
+  let over ← (if o = "-" then some none else o.toNat?.map some)
+  let (vs, r) ← many (verbSP num) r
+  return (⟨over, vs⟩, r)
+
+def oversOk {τ : Type} (fr : List (RFrame τ)) : Bool :=
+  fr.all (fun f => match f.over with | some o => o < fr.length | none => true) && acyclic fr
+
+def suspCount {τ : Type} (fr : List (SFrame τ)) : Nat :=
+  (fr.map (fun f => (f.pres.filter (fun p => match p with | .susp _ => true | _ => false)).length)).sum
+
 def showObs {τ : Type} (sh : τ → String) (o : Obs τ) : String :=
   toString o.after.active ++ (if o.entered then "*" else ".") ++ ":" ++ sh o.after.elapsed ++ ":" ++
     toString o.after.recurred ++ ":" ++ sh o.now
@@ -97,16 +120,20 @@ def runLine {τ : Type} [Add τ] [Sub τ] [LE τ] [LT τ] [DecidableLE τ] [Deci
   let (per, r) ← num ts
   let (start, r) ← nat r
   let (nticks, r) ← nat r
-  let (p, r) ← many (frameP num) r
+  let (p, r) ← many (frameSP num) r
+  let (_, r) ← (match r with | "H" :: r => some ((), r) | _ => none)
+  let (hf, r) ← many (frameP num) r
+  let (dn, r) ← many nat r
   if r ≠ [] then none
   if p.isEmpty then none
-  match resolve p with
-  | .error _ => return "ERR build"
-  | .ok prog =>
-    -- over links must point at frames and form a forest (the real builder hangs on a cycle)
-    if !(prog.all (fun f => match f.over with | some o => o < prog.length | none => true)) then none
-    if !(acyclic prog) then none
-    return " ".intercalate ((run (transOf prog) (stampsFrom per start nticks)).map (showObs sh))
+  match resolveS p, resolve hf with
+  | .ok prog, .ok hfr =>
+    -- over links must point at frames and form a forest (the real builder hangs on a cycle);
+    -- one suspender at most, and then a helper framer with a first frame
+    if !(oversOk (prog.map SFrame.toR)) || !(oversOk hfr) then none
+    if suspCount prog > 1 || (suspCount prog = 1 && hfr.isEmpty) then none
+    return " ".intercalate ((runG (decideS prog ⟨hfr, dn⟩) {} (stampsFrom per start nticks)).map (showObs sh))
+  | _, _ => return "ERR build"
 
 def step (_ : Unit) (line : String) : Unit × String :=
   match words line with
